@@ -52,6 +52,8 @@ def one(d):
         tail = "; ".join(sigs[:3])
         if r.returncode not in (0, 1):
             tail += " | " + (r.stderr.strip().splitlines() or [""])[-1][-300:]
+        if meta.get("expected") == "thorough-only":  # known to be beyond the quick tier (caught by the thorough tier, see meta.json)
+            return name, {0: "beyond-quick-tier", 1: "caught", 2: "CHECK-BROKE"}.get(r.returncode, str(r.returncode)), tail
         if meta.get("expected") == "silent":  # allowed by the documented contract: recorded, not required to be caught
             return name, {0: "silent-as-expected", 1: "caught", 2: "CHECK-BROKE"}.get(r.returncode, str(r.returncode)), tail
         return name, {0: "MISSED", 1: "caught", 2: "CHECK-BROKE"}.get(r.returncode, str(r.returncode)), tail
@@ -74,7 +76,7 @@ def main():
         for name, verdict, sig in ex.map(one, dirs):
             print(f"{name:14s} {verdict:12s} {sig}", flush=True)
             res.append((name, verdict))
-    bad = [n for n, v in res if v not in ("caught", "silent-as-expected")]
+    bad = [n for n, v in res if v not in ("caught", "silent-as-expected", "beyond-quick-tier")]
     print(f"{len(res)-len(bad)}/{len(res)} caught; not caught: {bad}")
     old = {}
     if args and os.path.exists(V + "/seeded/REGRESSION.json"):  # a partial run updates, a full run replaces
